@@ -76,6 +76,57 @@ func tableString(m map[string]string) string {
 }
 
 func runC02(c *Ctx) {
+	c.Rule("C02.COERCE", "SIBLING: the typed decoder's float→int64 element coercion (decodeIntElemAsInt64) executes its conversion under exactly the guards the generic path's toInt64 has for float64 (the same comparisons against the same constants, the same NaN test or none) — if one side starts rejecting a value the other still accepts, the two paths differ in whether the write is accepted and in what is stored")
+	{
+		guardsOf := func(fn *ssa.Function) (map[string]bool, int) {
+			out := map[string]bool{}
+			n := 0
+			if fn == nil {
+				return out, 0
+			}
+			for _, in := range instrs(fn, false) {
+				cv, ok := in.(*ssa.Convert)
+				if !ok || cv.X.Type().String() != "float64" || cv.Type().String() != "int64" {
+					continue
+				}
+				n++
+				for _, f := range factsAt(cv) {
+					switch f.Kind {
+					case factCmp:
+						if f.X == cv.X {
+							if k, ok := f.Y.(*ssa.Const); ok && k.Value != nil {
+								out[f.Op.String()+" "+k.Value.ExactString()] = true
+							}
+						}
+					case factTrue, factFalse:
+						if cl, ok := f.Val.(*ssa.Call); ok && (callName(cl) == "math.IsNaN" || callName(cl) == "math.IsInf") {
+							out[fmt.Sprintf("%s=%v", callName(cl), f.Kind == factTrue)] = true
+						}
+					}
+				}
+			}
+			return out, n
+		}
+		g1, n1 := guardsOf(c.P.Func("internal/ingest.toInt64"))
+		g2, n2 := guardsOf(c.P.Func("internal/ingest.decodeIntElemAsInt64"))
+		if n1 == 0 || n2 == 0 {
+			c.Unk("C02.COERCE", "toInt64~decodeIntElemAsInt64|float-conversions", 0, "float64→int64 conversions found: generic %d, typed %d", n1, n2)
+		} else {
+			var diff []string
+			for k := range g1 {
+				if !g2[k] {
+					diff = append(diff, "only generic: "+k)
+				}
+			}
+			for k := range g2 {
+				if !g1[k] {
+					diff = append(diff, "only typed: "+k)
+				}
+			}
+			sort.Strings(diff)
+			c.Check(len(diff) == 0, "C02.COERCE", "toInt64~decodeIntElemAsInt64|float-guards", c.P.Func("internal/ingest.toInt64").Pos(), fmt.Sprintf("both convert float64 under the same %d guard(s)", len(g1)), "the generic and the typed path guard their float64→int64 conversion differently ("+strings.Join(diff, "; ")+"): a float element one side rejects (NaN, exactly 2^63) is accepted and stored by the other, so switching the typed fast path changes whether the write is accepted")
+		}
+	}
 	p := c.P
 	c.Rule("C02.UNIT", "AGREE: the magnitude-to-factor table of decodeTimeColumnTyped equals that of normalizeTimestampColumnsUnit (<1e10→×1e6, <1e13→×1e3, <1e16→×1, else ÷1e3), and both decide from element 0")
 	c.Rule("C02.GATE", "FLOW+WHO: typedEnabled is written only by SetTypedDecodeEnabled, whose every caller passes the negation of ArrowBuffer.HasDecimalColumns()")
